@@ -68,6 +68,68 @@ def run(F, R, ctx):
     _run(F, R, ctx)
     rest_collapse_rule(F, R)
     opcode_rewrite_rule(F, R)
+    traversal_rule(F, R)
+
+
+# the walkers whose result decides how an assigned variable is compiled: they must see every sub-expression
+ASSIGNMENT_WALKERS = [
+    (r"\{impl VisitorMut for CollectSet(<'a>)?\}::(visit_\w+)$", "CollectSet",
+     "collects the identifiers that are assigned anywhere; constant propagation substitutes every other definition"),
+    (r"\{impl VisitorMutUnitRef(<'a>)? for AnalysisPass(<'a>)?\}::(visit_\w+)$", "AnalysisPass",
+     "records set_bang / captured / last_usage for every identifier"),
+    (r"\{impl VisitorMutRefUnit for ReplaceSetOperationsWithBoxes(<'a>)?\}::(visit_\w+)$", "ReplaceSetOperationsWithBoxes",
+     "rewrites captured-and-assigned variables into boxes"),
+]
+WALK_NODES = {"visit_set": "Set", "visit_if": "If", "visit_define": "Define", "visit_lambda_function": "LambdaFunction",
+              "visit_begin": "Begin", "visit_return": "Return", "visit_list": "List", "visit_let": "Let"}
+# child fields that are not evaluated sub-expressions
+NOT_EVALUATED = {("Define", "name"): "the defined name is a binder", ("LambdaFunction", "args"): "parameters are binders"}
+# (walker, method, field) read on some path only, with the reason the other paths are complete
+PARTIAL_OK = {("AnalysisPass", "visit_list", "args"): "returns early for the empty list, which has no children"}
+
+
+def traversal_rule(F, R):
+    R.rule("C01.c", "the walkers that decide how assigned variables are compiled (CollectSet for constant propagation, "
+                    "AnalysisPass for set_bang/capture/last-use, ReplaceSetOperationsWithBoxes) reach every evaluated "
+                    "sub-expression: each visit_<node> they define reads every child-expression field of the node (fields of "
+                    "type ExprKind / Vec<ExprKind> / bindings, from the node's type; binders excluded) on every path to its "
+                    "return — an assignment nested in a skipped child (the right-hand side of another set!, a branch, a "
+                    "binding) would not be recorded, and the variable would be propagated as a constant / not boxed")
+    n = 0
+    for rx, walker, what in ASSIGNMENT_WALKERS:
+        fns = F.find(rx)
+        if not fns:
+            raise CheckError("anchor lost: walker %s" % walker)
+        seen = set()
+        for fn in fns:
+            meth = lib.split_path(fn.name)[-1]
+            node = WALK_NODES.get(meth)
+            if node is None:
+                continue
+            seen.add(meth)
+            adt = F.adts.get("steel_parser::ast::" + node)
+            if adt is None:
+                raise CheckError("anchor lost: steel_parser::ast::%s" % node)
+            kids = [f["name"] for f in adt["variants"][0]["fields"] if "ExprKind" in f["ty"] and (node, f["name"]) not in NOT_EVALUATED]
+            rets = [i for i, b in enumerate(fn.blocks) if b["k"] == "return" and not b["c"]]
+            for k in kids:
+                reads = sorted(set(i for i, _, e in fn.events("fld") if e[1] == node and e[2] == k))
+                key = "%s::%s reads %s.%s on every path" % (walker, meth, node, k)
+                n += 1
+                if (walker, meth, k) in PARTIAL_OK:
+                    R.inst("C01.c", key + " (partial: %s)" % PARTIAL_OK[(walker, meth, k)], bool(reads),
+                           "%s::%s never reads %s.%s: the children of the node are not walked (%s)" % (walker, meth, node, k, what),
+                           fn.loc(), sample=True)
+                    continue
+                ok, w = fn.every_path_passes_from([0], rets, reads) if reads else (False, None)
+                R.inst("C01.c", key, ok,
+                       "%s::%s can return without reading %s.%s%s: that child is not walked on such a path, so what it "
+                       "contains is invisible to the pass that %s" % (walker, meth, node, k,
+                                                                     "" if reads else " (it never reads it)", what),
+                       fn.loc(), sample=True)
+        if "visit_set" not in seen and walker != "ReplaceSetOperationsWithBoxes":
+            raise CheckError("anchor lost: %s::visit_set" % walker)
+    R.floor("C01.c", "child fields of assignment walkers", n, 25)
 
 
 def _run(F, R, ctx):
